@@ -13,7 +13,10 @@ SM, SC = "sm", "sc"
 
 
 # ------------------------------------------------------------------ the real side
-def make_factory(case, created):
+SC2 = "sc2"
+
+
+def make_factory(case, created, multi=False):
     a, b, s0, c0, start, dt, stop = (case[k] for k in ("a", "b", "s0", "c0", "start", "dt", "stop"))
     def factory():
         from BPTK_Py import Model, bptk
@@ -25,18 +28,34 @@ def make_factory(case, created):
             import BPTK_Py.sddsl.functions as sd
             g = m.converter("g"); g.equation = c * a
             c.equation = c0; f.equation = sd.delay(m, g, 2 * dt); s.initial_value = s0; s.equation = f; k.equation = s * b + c
+        elif case.get("family") == "points":
+            # the converter reads a graphical function; step settings replace its points table (flat table: lookup = its level)
+            import BPTK_Py.sddsl.functions as sd
+            m.points["p"] = flat(c0)
+            c.equation = c0; f.equation = c * a; s.initial_value = s0; s.equation = f; k.equation = s * b + sd.lookup(sd.time(), "p")
         else:
             c.equation = c0; f.equation = c * a; s.initial_value = s0; s.equation = f; k.equation = s * b + c
         bp = bptk()
         bp.register_scenario_manager({SM: {"model": m}})
-        bp.register_scenarios(scenarios={SC: {"constants": {"c": c0}}}, scenario_manager=SM)
+        scns = {SC: {"constants": {"c": c0}}}
+        if multi:
+            scns[SC2] = {"constants": {"c": c0 + 1.0}}
+        bp.register_scenarios(scenarios=scns, scenario_manager=SM)
         created.append(bp)
         return bp
     return factory
 
 
-def settings_of(v):
-    return None if v is None else {SM: {SC: {"constants": {"c": v}}}}
+def flat(v):
+    return [[-1000.0, float(v)], [1000.0, float(v)]]
+
+
+def settings_of(v, case=None, scn=None):
+    if v is None:
+        return None
+    if case is not None and case.get("family") == "points":
+        return {SM: {scn or SC: {"points": {"p": flat(v)}}}}
+    return {SM: {scn or SC: {"constants": {"c": v}}}}
 
 
 class Tok:
@@ -49,12 +68,12 @@ class Tok:
         return "i%d" % i if i is not None else "r" + repr(t)
 
 
-def canon_step(res, eqs, tok):
+def canon_step(res, eqs, tok, scn=None):
     """one run_step result {sm: {sc: {eq: {t: v}}}} -> `tok:v,v` (in the order of eqs)"""
     if isinstance(res, dict) and "msg" in res:
         return "stopped"
     try:
-        d = res[SM][SC]
+        d = res[SM][scn or SC]
         toks = {tok(t) for e in eqs for t in d[EQN[e]].keys()}
         if len(toks) != 1 or any(len(d[EQN[e]]) != 1 for e in eqs):
             return "malformed:" + json.dumps(res, default=str)[:200]
@@ -131,7 +150,7 @@ def api_session(case, tok):
         bp.begin_session(scenarios=[SC], scenario_managers=[SM], equations=[EQN[e] for e in eqs])
         out["dt"] = bp.session_state["dt"]
         def one(v):
-            st = settings_of(v)
+            st = settings_of(v, case)
             r = bp.run_step(settings=st) if st is not None else bp.run_step()
             out["replies"].append(canon_step(r, eqs, tok))
         for cl in case["calls"]:
@@ -168,7 +187,7 @@ def rest_session(case, tok):
         r = cl.post("/%s/begin-session" % iid, json={"scenario_managers": [SM], "scenarios": [SC], "equations": [EQN[e] for e in eqs]})
         out["http"].append(r.status_code)
         for c in case["calls"]:
-            st = settings_of(c[-1])
+            st = settings_of(c[-1], case)
             if c[0] == "step":
                 # settings must be present in a JSON body; a call without body runs without settings
                 r = cl.post("/%s/run-step" % iid, json={"settings": st}) if st is not None else cl.post("/%s/run-step" % iid)
@@ -228,11 +247,80 @@ def reference_rows(case, n):
     rows, s = [], s0
     for j in range(len(cs)):
         c = cs[j]
+        if case.get("family") == "points":            # the settings replace the points table; the constant keeps its value
+            f = max(0, c0 * a)
+            vals = {0: c0, 1: f, 2: s, 3: s * b + c}
+            rows.append("i%d:" % j + ",".join(fbits(vals[e]) for e in case["eqs"]))
+            s = s + dt * f
+            continue
         f = max(0, (cs[max(0, j - 2)] if case.get("family") == "lookback" else c) * a)
         vals = {0: c, 1: f, 2: s, 3: s * b + c}
         rows.append("i%d:" % j + ",".join(fbits(vals[e]) for e in case["eqs"]))
         s = s + dt * f
     return rows, len(ss)
+
+
+def multi_session(case, tok, n):
+    """two scenarios of one manager in ONE session (Python API and REST run-step): every step may carry settings for either,
+    both or none; each scenario's replies must be those of its own single-scenario reference (own start value, own script)"""
+    from BPTK_Py.server import BptkServer
+    eqs, names = case["eqs"], [EQN[e] for e in case["eqs"]]
+    ss = expand_calls(case["calls"], n)[: n + 2]
+    # scenario 2 receives the value v + 0.25 at every second step that carries a value, and one of its own at step 1
+    script2 = [(v + 0.25 if (v is not None and j % 2 == 0) else (3.5 if j == 1 else None)) for j, v in enumerate(ss)]
+    def stg_(j):
+        d = {}
+        for scn, v in ((SC, ss[j]), (SC2, script2[j])):
+            if v is not None:
+                d.setdefault(SM, {})[scn] = settings_of(v, case, scn)[SM][scn]
+        return d
+    problems, created = [], []
+    try:
+        bp = make_factory(case, created, multi=True)()
+        bp.begin_session(scenarios=[SC, SC2], scenario_managers=[SM], equations=names)
+        api = {SC: [], SC2: []}
+        for j in range(len(ss)):
+            r = bp.run_step(settings=stg_(j)) if stg_(j) else bp.run_step()
+            for scn in (SC, SC2):
+                api[scn].append(canon_step(r, eqs, tok, scn))
+        bp.end_session()
+        app = BptkServer(__name__, make_factory(case, created, multi=True))
+        cl = app.test_client()
+        iid = json.loads(cl.post("/start-instance", json={}).data)["instance_uuid"]
+        cl.post("/%s/begin-session" % iid, json={"scenario_managers": [SM], "scenarios": [SC, SC2], "equations": names})
+        rest = {SC: [], SC2: []}
+        for j in range(len(ss)):
+            r = cl.post("/%s/run-step" % iid, json={"settings": stg_(j)}) if stg_(j) else cl.post("/%s/run-step" % iid)
+            x = _keys(json.loads(r.data))
+            for scn in (SC, SC2):
+                rest[scn].append(canon_step(x, eqs, tok, scn))
+    finally:
+        for b in created:
+            b.destroy()
+    for scn, script, c0 in ((SC, ss, case["c0"]), (SC2, script2, case["c0"] + 1.0)):
+        own = dict(case, c0=c0, calls=[("step", v) for v in script])
+        if case.get("family") == "points":
+            own["c0"] = case["c0"]        # the table starts at level c0 in both scenarios; scenario 2 differs in its constant only
+        ref, _ = reference_rows(own, n)
+        if case.get("family") == "points" and scn == SC2:
+            # recompute with the second scenario's constant c0 + 1 and the shared initial table level
+            a, b, s0, dt = (case[k] for k in ("a", "b", "s0", "dt"))
+            ref, s_, cur = [], s0, case["c0"]
+            for j, v in enumerate(script[: n + 1]):
+                cur = cur if v is None else v
+                f = max(0, (case["c0"] + 1.0) * a)
+                vals = {0: case["c0"] + 1.0, 1: f, 2: s_, 3: s_ * b + cur}
+                ref.append("i%d:" % j + ",".join(fbits(vals[e]) for e in eqs)); s_ = s_ + dt * f
+        got = [r for r in api[scn] if r != "stopped"]
+        if got != ref:
+            j = next((i for i, (g, r) in enumerate(zip(got, ref)) if g != r), min(len(got), len(ref)))
+            problems.append(("multi-scenario-session", "scenario %s of a two-scenario session: step %d reports %s, its own single-scenario reference %s"
+                             % (scn, j, got[j] if j < len(got) else None, ref[j] if j < len(ref) else None),
+                             {"scenario": scn, "step": j, "script_sc": ss, "script_sc2": script2}))
+        if api[scn] != rest[scn]:
+            problems.append(("channels-disagree", "two-scenario session: Python API and REST run-step differ for scenario %s" % scn,
+                             {"api": api[scn], "rest": rest[scn]}))
+    return problems
 
 
 # ------------------------------------------------------------------ probes
@@ -346,8 +434,13 @@ def gen_case(rng, fixed=None):
     case = {"a": rng.choice([1.0, 2.0, 0.5, 1.5, 0.3]), "b": rng.choice([1.0, 3.0, 0.25, 1.1]), "s0": rng.choice([0.0, 1.0, 2.5, 0.7]),
             "c0": rng.choice([1.0, 2.0, 0.75, 0.1]), "start": start, "dt": dt, "stop": round(start + n * dt, 10),
             "eqs": rng.choice(EQSETS), "calls": gen_calls(rng, n)}
-    if rng.chance(1, 4):
+    r = rng.below(8)
+    if r < 2:
         case["family"] = "lookback"
+    elif r < 3:
+        case["family"] = "points"            # step settings carry `points` (a new table for the graphical function k reads)
+    if rng.chance(1, 5):
+        case["multi"] = True                 # additionally: the same script in a two-scenario session
     if fixed:
         case.update(fixed)
     return case
@@ -361,6 +454,9 @@ def fixed_cases():
             out.append(dict(probe_case(dt, 6, [2, 1, 0], list(calls), start=1.0), a=2.0, b=3.0, s0=1.0))
     for eqs in ([2], [1, 2], [3]):                    # look-back family: c changes with the fourth and sixth step
         out.append(dict(probe_case(1.0, 8, eqs, [("steps", 3, None), ("step", 5.0), ("step", None), ("step", 0.5), ("stream", None)]), family="lookback"))
+    for eqs in ([3], [2, 3], [0, 1, 2, 3]):           # points passed with a step; two-scenario sessions; calls after a completed stream
+        out.append(dict(probe_case(0.5, 6, eqs, [("steps", 2, None), ("step", 4.0), ("steps", 2, None), ("stream", 0.5)]), family="points", multi=True))
+        out.append(dict(probe_case(1.0, 5, eqs, [("step", 2.0), ("stream", None), ("step", 7.0), ("steps", 2, None), ("stream", 3.0)]), multi=True))
     for eqs in EQSETS:                                # the §1 script: c -> 10 with the fourth step
         for dt in (1.0, 0.5):
             out.append(dict(probe_case(dt, 6, eqs, [("steps", 3, None), ("step", 10.0), ("steps", 2, None), ("stream", 0.5)])))
@@ -472,11 +568,13 @@ def run_case(case, facts):
     if all(c[-1] is None for c in case["calls"]) and nsteps >= n + 1 and got == ref and "|".join(got) != dfrows:
         problems.append(("channels-disagree", "complete session without settings differs from the batch dataframe",
                          {"session": got, "batch": dfrows}))
+    if case.get("multi"):
+        problems += multi_session(case, tok, n)
     return req, exp, problems, n
 
 
 def case_show(case):
-    return {k: case[k] for k in ("a", "b", "s0", "c0", "start", "dt", "stop")} | ({"family": case["family"]} if case.get("family") else {}) | {
+    return {k: case[k] for k in ("a", "b", "s0", "c0", "start", "dt", "stop")} | ({"family": case["family"]} if case.get("family") else {}) | ({"multi": True} if case.get("multi") else {}) | {
         "equations": [EQN[e] for e in case["eqs"]], "calls": [call_show(c) for c in case["calls"]]}
 
 
@@ -530,7 +628,8 @@ def run(chk):
         dist["eqsets"][",".join(EQN[x] for x in case["eqs"])] = dist["eqsets"].get(",".join(EQN[x] for x in case["eqs"]), 0) + 1
         for c in case["calls"]:
             dist["calls"][c[0] + ("+settings" if c[-1] is not None else "")] = dist["calls"].get(c[0] + ("+settings" if c[-1] is not None else ""), 0) + 1
-        req += r; exp += e; owner += [idx] * len(r)       # both families: abstract channel model + memo-level session of the driver
+        if case.get("family") != "points":     # linear + look-back: abstract channel model + memo-level session of the driver;
+            req += r; exp += e; owner += [idx] * len(r)   # points settings: real channels pairwise + reference only
         dist.setdefault("family", {})[case.get("family", "linear")] = dist.setdefault("family", {}).get(case.get("family", "linear"), 0) + 1
         chk.case(json.dumps(case_show(case), sort_keys=True), nontrivial=len(case["calls"]) > 1 or any(c[-1] is not None for c in case["calls"]),
                  sample=case_show(case) if idx % 17 == 3 else None)
